@@ -9,7 +9,6 @@ package db
 import (
 	"errors"
 	"fmt"
-	"reflect"
 	"strings"
 
 	"github.com/alicebob/sqlittle/sql"
@@ -92,6 +91,9 @@ func newCreateTable(ct sql.CreateTableStmt) *Schema {
 		WithoutRowid: ct.WithoutRowid,
 	}
 	autoindex := 1
+	// In a WITHOUT ROWID table SQLite adds the index for a single column
+	// `INTEGER PRIMARY KEY` only after everything else.
+	var latePK []IndexColumn
 	for _, c := range ct.Columns {
 		col := TableColumn{
 			Column:  c.Name,
@@ -101,53 +103,55 @@ func newCreateTable(ct sql.CreateTableStmt) *Schema {
 			Collate: c.Collate,
 			Rowid:   false,
 		}
-		if c.PrimaryKey {
-			col.Rowid = (!ct.WithoutRowid) && isRowid(false, c.Type, c.PrimaryKeyDir)
-			col.Null = !ct.WithoutRowid && c.Null // w/o rowid forces not null
-
-			name := fmt.Sprintf("sqlite_autoindex_%s_%d", st.Table, autoindex)
-			if ct.WithoutRowid {
-				name = ""
-			}
-			if ct.WithoutRowid {
-				// non-rowid primary keys have a special place
-				st.setPK([]IndexColumn{
-					{
-						Column:    c.Name,
-						SortOrder: c.PrimaryKeyDir,
-					},
-				})
-				autoindex++
-			} else {
-				if col.Rowid {
-					st.RowidPK = true
-				} else if st.addIndex(
-					true,
-					name,
-					[]IndexColumn{
-						{
-							Column:    c.Name,
-							SortOrder: c.PrimaryKeyDir,
-						},
-					},
-				) {
-					autoindex++
-				}
-			}
-		}
-		if c.Unique {
+		addUnique := func() {
 			if st.addIndex(
 				false,
 				fmt.Sprintf("sqlite_autoindex_%s_%d", st.Table, autoindex),
 				[]IndexColumn{
 					{
 						Column:    c.Name,
+						Collate:   c.Collate,
 						SortOrder: sql.Asc,
 					},
 				},
 			) {
 				autoindex++
 			}
+		}
+		// constraints count in the order they are written
+		if c.Unique && c.UniqueFirst {
+			addUnique()
+		}
+		if c.PrimaryKey {
+			col.Rowid = (!ct.WithoutRowid) && isRowid(false, c.Type, c.PrimaryKeyDir)
+			col.Null = !ct.WithoutRowid && c.Null // w/o rowid forces not null
+
+			// indexes from column constraints use the collate of the column
+			pkCols := []IndexColumn{
+				{
+					Column:    c.Name,
+					Collate:   c.Collate,
+					SortOrder: c.PrimaryKeyDir,
+				},
+			}
+			name := fmt.Sprintf("sqlite_autoindex_%s_%d", st.Table, autoindex)
+			if ct.WithoutRowid {
+				// non-rowid primary keys have a special place
+				if isRowid(false, c.Type, c.PrimaryKeyDir) {
+					latePK = pkCols
+				} else if st.setPK(pkCols) {
+					autoindex++
+				}
+			} else {
+				if col.Rowid {
+					st.RowidPK = true
+				} else if st.addIndex(true, name, pkCols) {
+					autoindex++
+				}
+			}
+		}
+		if c.Unique && !c.UniqueFirst {
+			addUnique()
 		}
 		st.Columns = append(st.Columns, col)
 	}
@@ -168,8 +172,15 @@ constraint:
 				for _, co := range c.IndexedColumns {
 					st.column(co.Column).Null = false
 				}
-				st.setPK(st.toIndexColumns(c.IndexedColumns))
-				autoindex++
+				pkCols := st.toIndexColumns(c.IndexedColumns)
+				if len(pkCols) == 1 && isRowid(true, st.column(pkCols[0].Column).Type, pkCols[0].SortOrder) {
+					// SQLite makes this index from the column, not from
+					// the constraint
+					pkCols[0].Collate = st.column(pkCols[0].Column).Collate
+					latePK = pkCols
+				} else if st.setPK(pkCols) {
+					autoindex++
+				}
 				continue
 			}
 			name := fmt.Sprintf("sqlite_autoindex_%s_%d", st.Table, autoindex)
@@ -182,6 +193,9 @@ constraint:
 				autoindex++
 			}
 		}
+	}
+	if latePK != nil {
+		st.setPK(latePK)
 	}
 
 	return st
@@ -222,14 +236,37 @@ func (st *Schema) toIndexColumns(ci []sql.IndexedColumn) []IndexColumn {
 	return cs
 }
 
+// sameIndex is true if SQLite considers a new UNIQUE or PRIMARY KEY
+// constraint on cols to be the same as an already existing one: same columns
+// with the same collating functions. Sort order is not relevant.
+func sameIndex(a, b []IndexColumn) bool {
+	if len(a) != len(b) {
+		return false
+	}
+	coll := func(c string) string {
+		if c == "" {
+			return DefaultCollate
+		}
+		return strings.ToLower(c)
+	}
+	for i := range a {
+		if !strings.EqualFold(a[i].Column, b[i].Column) ||
+			a[i].Expression != b[i].Expression ||
+			coll(a[i].Collate) != coll(b[i].Collate) {
+			return false
+		}
+	}
+	return true
+}
+
 // add an index. This is a noop if an equivalent index already exists. Returns
 // whether the indexed got added.
 func (st *Schema) addIndex(pk bool, name string, cols []IndexColumn) bool {
-	if reflect.DeepEqual(st.PK, cols) {
+	if st.PK != nil && sameIndex(st.PK, cols) {
 		return false
 	}
 	for _, ind := range st.Indexes {
-		if reflect.DeepEqual(ind.Columns, cols) {
+		if sameIndex(ind.Columns, cols) {
 			if pk {
 				st.PrimaryKey = ind.Index
 			}
@@ -246,17 +283,23 @@ func (st *Schema) addIndex(pk bool, name string, cols []IndexColumn) bool {
 	return true
 }
 
-// sets the PK key (for non-rowid tables). Deletes any duplicate indexes.
-func (st *Schema) setPK(cols []IndexColumn) {
+// sets the PK key (for non-rowid tables). If there is an equivalent index
+// already that one becomes the primary key, as SQLite does. Returns whether
+// the primary key is a new index.
+func (st *Schema) setPK(cols []IndexColumn) bool {
 	st.PK = cols
 	for i, ind := range st.Indexes {
-		if reflect.DeepEqual(ind.Columns, cols) {
+		if sameIndex(ind.Columns, cols) {
+			// keeps the definition (the sort order) of the first one
+			st.PK = ind.Columns
 			st.Indexes = append(st.Indexes[:i], st.Indexes[i+1:]...)
 			if len(st.Indexes) == 0 {
 				st.Indexes = nil // to make test diffs easier
 			}
+			return false
 		}
 	}
+	return true
 }
 
 // Returns the index of the named column, or -1.
